@@ -16,8 +16,35 @@ _W = {}
 
 
 def payload(parent, label):
+    if label == 'M':
+        return [], K[4], 120, max_block_kw(parent)
     k = {'c': 4, 'a': 5, 'b': 0, 'x': 1, 'y': 4}[label]
     return [], K[k], 120
+
+
+def max_block_kw(parent):
+    """reward outputs and reward data that make an (otherwise empty) block serialize to exactly MAX_BLOCK_SIZE bytes: the
+    largest valid block there is"""
+    from skepticoin.params import MAX_BLOCK_SIZE
+    sub = refmodel.subsidy(parent.height + 1)
+    n = (MAX_BLOCK_SIZE - 600) // 73
+    for _ in range(400):
+        outs = [(1, K[4])] * n + [(sub - n, K[5])]
+        for pad in (0, 60, 120, 200):
+            size = len(enc.enc_block(world.assemble(parent, [], K[4], parent.ts + 120, cb_outs=outs, cb_data=b'p' * pad, pow_ok=None)))
+            if size >= MAX_BLOCK_SIZE:
+                break
+        if size < MAX_BLOCK_SIZE:
+            n += 1
+            continue
+        for pad in range(0, 201):
+            size = len(enc.enc_block(world.assemble(parent, [], K[4], parent.ts + 120, cb_outs=outs, cb_data=b'p' * pad, pow_ok=None)))
+            if size == MAX_BLOCK_SIZE:
+                return {'cb_outs': outs, 'cb_data': b'p' * pad}
+            if size > MAX_BLOCK_SIZE:
+                break
+        n -= 1
+    raise seams.HarnessError("no block of exactly MAX_BLOCK_SIZE bytes found")
 
 
 def setup_worker():
@@ -51,6 +78,8 @@ def configs(ctx):
     two('ahead-by-3', chain(5), chain(2))
     two('ahead-by-7', chain(8), chain(1), small=False)
     two('other-at-genesis', chain(4), chain(0))
+    # the longer chain contains a block of exactly the maximum size
+    C['max-size-block:B-dials-A'] = {'chains': [chain(2) + ('M', 'c'), chain(2)], 'dials': [(1, 0)], 'small': False}
     two('fork-depth-2-longer', chain(2, 'a', 3), chain(2, 'b', 2), both=True)
     two('fork-depth-2-equal', chain(2, 'a', 2), chain(2, 'b', 2))
     two('fork-depth-12', chain(2, 'a', 13), chain(2, 'b', 12), small=False)
@@ -761,6 +790,8 @@ def run(ctx):
         if not ctx.quick and name.startswith(('ahead-by-1:A', 'fork-depth-2-longer:A')):
             bound = 3
             window = 12
+        if name.startswith('max-size'):
+            bound = 0 if ctx.quick else 1       # (every execution moves a 200,000-byte block in 1024-byte reads)
         reduced_from = 99
         if not ctx.quick and len(cfg['chains']) > 2:
             reduced_from = 2         # three nodes: the second deviation from the reduced (environment) alphabet
